@@ -3,6 +3,7 @@
 Proofs in coq/C03; correspondence against neuropixel.NP2Converter / NP2Reconstructor
 (through spikeglx.Reader) on synthetic NP2.4 recordings written by this harness."""
 import json
+import os
 import logging
 import re
 import shutil
@@ -120,10 +121,48 @@ IMPL_WALL_S = 1800
 _HANGS = [0]
 
 
+def _in_child(fn, *args):
+    """fn(*args) in a forked child (own working directory, CPU limit, wall-clock limit); the result comes back
+    through a pipe.  A child that dies or never answers is an observation, not a stuck or crashed check."""
+    import multiprocessing as mp
+    import resource
+    mpc = mp.get_context("fork")
+    r, w = mpc.Pipe(duplex=False)
+    dead = {"shanks": [], "recon": None, "orig_meta": {}}
+
+    def target():
+        try:
+            resource.setrlimit(resource.RLIMIT_CPU, (IMPL_CPU_S * 2, IMPL_CPU_S * 2 + 5))
+            res = fn(*args)
+        except BaseException as e:      # noqa
+            res = dict(dead, error=("child", type(e).__name__, str(e)[:200]))
+        try:
+            w.send(res)
+        except BaseException as e:      # noqa
+            w.send(dict(dead, error=("child", type(e).__name__, "result not transferable: " + str(e)[:150])))
+        finally:
+            w.close()
+            os._exit(0)
+
+    p = mpc.Process(target=target)
+    p.start()
+    w.close()
+    try:
+        res = r.recv() if r.poll(IMPL_WALL_S) else dict(dead, error=("hang", "Timeout", "child did not answer"))
+    except BaseException as e:          # noqa  (EOF: the child was killed, e.g. by its CPU limit)
+        res = dict(dead, error=("hang", type(e).__name__, "child died without a result"))
+    p.join(5)
+    if p.is_alive():
+        p.kill()
+    return res
+
+
 def run_impl(case, data):
     """run_impl_inner under an alarm: an implementation that never returns becomes an observation
     ('hang'), not a stuck check."""
     import signal
+    if case.get("access") == "relative":    # changes the working directory: only in a child process
+        return _in_child(run_impl_inner, case, data)
     if _HANGS[0] >= 3:              # do not spend the whole budget waiting on an implementation that hangs
         return {"error": ("hang", "Timeout", "not run: three earlier conversions did not return"),
                 "shanks": [], "recon": None, "orig_meta": {}}
@@ -153,19 +192,45 @@ def run_impl_inner(case, data):
     logging.disable(logging.WARNING)
     base = common.tmpdir("C03_run_")
     obs = {"error": None, "shanks": [], "recon": None}
+    access = case.get("access", "plain")
     try:
-        d = base / "probe00"
-        d.mkdir(parents=True)
-        f = d / BIN_NAME
-        data.tofile(f)
         mtxt = make_meta(case["template"], case["nap"], case["ns"], case["labels"], case["gain"])
-        f.with_suffix(".meta").write_text(mtxt)
+        # where the caller's path lives (raw_dir/probe00/BIN_NAME) versus where the bytes really are
+        raw_dir = base if access == "plain" else base / "raw_ephys_data"
+        raw_dir.mkdir(parents=True, exist_ok=True)
+        d = raw_dir / "probe00"
+        archive = base / "archive"
+        if access == "link_dir":        # probe00 is a symbolic link to the acquisition run folder
+            real = archive / "_spikeglx_ephysData_g0_imec0"
+            real.mkdir(parents=True)
+            data.tofile(real / BIN_NAME)
+            (real / BIN_NAME).with_suffix(".meta").write_text(mtxt)
+            d.symlink_to(real, target_is_directory=True)
+        elif access == "link_files":    # probe00 is a real folder whose files are links into a flat store
+            real = archive / "store"
+            real.mkdir(parents=True)
+            data.tofile(real / "4f6d2a.ap.bin")
+            (real / "4f6d2a.ap.meta").write_text(mtxt)
+            d.mkdir()
+            (d / BIN_NAME).symlink_to(real / "4f6d2a.ap.bin")
+            (d / BIN_NAME).with_suffix(".meta").symlink_to(real / "4f6d2a.ap.meta")
+        else:
+            d.mkdir(parents=True, exist_ok=True)
+            data.tofile(d / BIN_NAME)
+            (d / BIN_NAME).with_suffix(".meta").write_text(mtxt)
+        archive_before = sorted(str(q.relative_to(archive)) for q in archive.rglob("*")) if archive.exists() else []
+        f = d / BIN_NAME                 # absolute path of the recording as the caller names it
+        if access == "relative":         # the caller sits in raw_ephys_data and names the file relatively
+            os.chdir(raw_dir)            # (only ever executed in a child process, see run_impl)
+            given, given_raw = Path("probe00") / BIN_NAME, Path(".")
+        else:
+            given, given_raw = f, raw_dir
         obs["orig_meta"] = dict(spikeglx.read_meta_data(f.with_suffix(".meta")))
         conv = None
         try:
             if case["W"] < 576 and case["W"] % 12 == 0 and case["ns"] > case["W"]:
                 raise RuntimeError("harness guard: this window/length pair makes the real loop run forever")
-            conv = neuropixel.NP2Converter(str(f) if case.get("strpath") else f,
+            conv = neuropixel.NP2Converter(str(given) if case.get("strpath") else given,
                                            post_check=case.get("post_check", False),
                                            compress=bool(case.get("compress", False)))
             s2v = conv.sr.channel_conversion_sample2v["ap"]
@@ -190,9 +255,18 @@ def run_impl_inner(case, data):
         except BaseException:           # noqa
             obs["orig_untouched"] = False
         try:
-            for key, info in conv.shank_info.items():
-                apf = Path(info["ap_file"])
+            # The split of <raw>/probe00/<name> is specified to be <raw>/probe00{a..d}/<name>: the files are read
+            # from THERE (derived from the path the caller gave, links not followed), not from wherever the
+            # converter says it wrote them; what it reports is compared with that location.
+            want = sorted(set(case["labels"]))
+            items = list(conv.shank_info.items())
+            obs["reported"] = []
+            for j, (key, info) in enumerate(items):
+                rep = Path(info["ap_file"])
                 chns = [int(c) for c in np.asarray(info["chns"]).ravel()]
+                folder = raw_dir / ("probe00" + chr(97 + want[j])) if j < len(want) else rep.parent
+                apf = folder / (BIN_NAME if rep.suffix != ".cbin" else Path(BIN_NAME).with_suffix(".cbin").name)
+                obs["reported"].append((os.path.abspath(os.path.join(str(raw_dir), str(rep))), str(apf)))
                 if apf.suffix == ".cbin":       # compress=True: read the compressed shank file back
                     with spikeglx.Reader(apf, sort=False) as srs:
                         raw = np.array(srs._raw[0:srs.ns, :], dtype=np.int16).ravel()
@@ -206,16 +280,20 @@ def run_impl_inner(case, data):
                                       "meta": meta, "nbytes": nbytes})
         except _Hang:
             raise
-        except BaseException as e:      # noqa  (files the converter claims to have written are unreadable)
+        except BaseException as e:      # noqa  (the shank files are not where the split is specified to be / unreadable)
             obs["error"] = ("collect", type(e).__name__, str(e)[:200])
+            obs["stray"] = [x for x in (sorted(str(q.relative_to(archive)) for q in archive.rglob("*"))
+                                        if archive.exists() else []) if x not in archive_before][:6]
             return obs
-        obs["folders"] = sorted(p.name for p in base.iterdir() if p.name != "probe00")
+        obs["stray"] = [x for x in (sorted(str(q.relative_to(archive)) for q in archive.rglob("*"))
+                                    if archive.exists() else []) if x not in archive_before][:6]
+        obs["folders"] = sorted(p.name for p in raw_dir.iterdir() if p.name not in ("probe00", "archive"))
         # reconstruct into a fresh probe00 directory
-        shutil.move(str(d), str(base / "orig"))
+        shutil.move(str(d), str(base / "orig_moved"))
         try:
-            rec = neuropixel.NP2Reconstructor(base, "probe00", compress=False)
+            rec = neuropixel.NP2Reconstructor(given_raw, "probe00", compress=False)
             rstatus = rec.process()
-            rf = base / "probe00" / BIN_NAME
+            rf = raw_dir / "probe00" / BIN_NAME
             obs["recon"] = {"status": safe_int(rstatus), "raw": np.fromfile(rf, dtype=np.int16),
                             "meta": dict(spikeglx.read_meta_data(rf.with_suffix(".meta")))}
         except _Hang:
@@ -250,11 +328,19 @@ def oracle(case, data, obs):
             bad.append(("badparams", "window size %d accepted or wrong exception: %s" % (case["W"], obs["error"])))
         return bad
     if obs["error"]:
-        return [("exception", "%s raised %s: %s" % obs["error"])]
+        extra = (" (new files next to the link targets instead: %s)" % obs["stray"][:3]) if obs.get("stray") else ""
+        return [("exception", "%s raised %s: %s" % tuple(obs["error"]) + extra)]
     nap, ns = case["nap"], case["ns"]
     labels = np.array(case["labels"])
     if obs.get("status") != 1:
         bad.append(("status", "process() returned %r" % obs.get("status")))
+    for rep, exp in obs.get("reported", []):
+        if rep != exp:
+            bad.append(("location", "converter reports the shank file %s; the split of the given path is %s"
+                        % (rep.split("C03_run_")[-1], exp.split("C03_run_")[-1])))
+            break
+    if obs.get("stray"):
+        bad.append(("location", "files written outside the session folder, next to the link targets: %s" % obs["stray"][:3]))
     if obs.get("orig_untouched") is False:
         bad.append(("original", "the original .ap.bin / .ap.meta were modified by the conversion"))
     want = sorted(set(case["labels"]))
@@ -574,6 +660,7 @@ def gen_cases(ctx):
                       "gain": GAINS[(i + rng.randrange(9)) % 9] if i >= 9 else GAINS[i],
                       "template": i % len(TEMPLATES), "post_check": i % 3 == 0,
                       "wfloat": i % 4 == 1, "strpath": i % 5 == 2, "compress": i % 6 == 3,
+                      "access": {4: "link_dir", 7: "link_files", 9: "link_dir", 10: "relative"}.get(i % 12, "plain"),
                       "full": i < (6 if ctx.thorough() else 2)})
     # recordings in which every one of the 65536 sample values occurs (one gain in quick, all nine in thorough)
     for g in (GAINS if ctx.thorough() else [rng.choice(GAINS)]):
@@ -592,7 +679,8 @@ def gen_cases(ctx):
                       "gain": rng.choice(GAINS), "template": rng.randrange(len(TEMPLATES)),
                       "post_check": rng.random() < 0.3, "full": True,
                       "wfloat": rng.random() < 0.2, "strpath": rng.random() < 0.2,
-                      "compress": rng.random() < 0.15})
+                      "compress": rng.random() < 0.15,
+                      "access": ["link_dir", "link_files", "relative", "plain", "plain", "plain", "plain", "plain"][i % 8]})
     # windows not above the hard-coded overlap, on recordings no longer than the window (these terminate):
     # known finding F-C03-b when samples are dropped; ns == W is lossless
     for W, ns in [(300, 200), (564, 563), (564, 564), (300, 300), (288, 200), (240, 200), (420, 150)] + (
@@ -631,6 +719,7 @@ def gen_codec(ctx):
 def describe(case):
     d = {k: case[k] for k in ("nap", "ns", "W", "gain", "template", "post_check")}
     d.update({k: bool(case.get(k, False)) for k in ("wfloat", "strpath", "compress", "allvals")})
+    d["access"] = case.get("access", "plain")
     d["labels"] = case["labels"]
     d["data_seed"] = case.get("data_seed")
     return d
@@ -670,7 +759,8 @@ def run(ctx):
     dist = {"conversions": 0, "nap384": 0, "multi_window": 0, "unaligned_length": 0, "single_shank": 0,
             "four_shanks": 0, "malformed_window": 0, "post_check": 0, "multi_recon_window": 0,
             "full_model_runs": 0, "values_compared": 0, "codec_lists": 0,
-            "window_below_overlap": 0, "all_65536_values_files": 0, "float_nwindow": 0, "str_path": 0, "compressed_shanks": 0}
+            "window_below_overlap": 0, "via_symlinked_folder": 0, "via_symlinked_files": 0,
+            "via_relative_path_other_cwd": 0, "all_65536_values_files": 0, "float_nwindow": 0, "str_path": 0, "compressed_shanks": 0}
     gains_seen, nontrivial, samples = set(), set(), []
     kernel_full = 0
     for ci, case in enumerate(cases):
@@ -696,6 +786,9 @@ def run(ctx):
             continue
         W, ns, nap = case["W"], case["ns"], case["nap"]
         dist["float_nwindow"] += bool(case.get("wfloat"))
+        dist["via_symlinked_folder"] += case.get("access") == "link_dir"
+        dist["via_symlinked_files"] += case.get("access") == "link_files"
+        dist["via_relative_path_other_cwd"] += case.get("access") == "relative"
         dist["all_65536_values_files"] += bool(case.get("allvals"))
         dist["str_path"] += bool(case.get("strpath"))
         dist["compressed_shanks"] += bool(case.get("compress"))
@@ -788,6 +881,7 @@ def replay(ctx, data):
         return 1 if (back != list(inp["chns"]) or ids) else 0
     case = {k: inp[k] for k in ("nap", "ns", "W", "template", "post_check", "labels", "data_seed")}
     case.update({k: inp.get(k, False) for k in ("wfloat", "strpath", "compress", "allvals")})
+    case["access"] = inp.get("access", "plain")
     case["gain"] = tuple(inp["gain"])
     arr = build_data(case)
     obs = run_impl(case, arr)
